@@ -5,7 +5,8 @@ import ast
 
 from sa.core import Ob
 from sa.pm import AnalysisError, norm, body_nodes
-from sa import gi, df, ru
+from sa import gi, df, ru, sym
+from sa.pm import Undecided
 from sa.gi import IntSet, iv, GuardWalker, SymbolicAtomizer, reach_sets
 
 GEN = "pycoin/ecdsa/Generator.py"
@@ -82,396 +83,197 @@ def coordinate_uses(func_node, var):
     return list({id(x): x for x in out}.values())
 
 
+_REF = None
+
+
+def _ref():
+    global _REF
+    if _REF is None:
+        import os
+        _REF = ast.parse(open(os.path.join(os.path.dirname(os.path.dirname(os.path.abspath(__file__))), "spec", "ref_ecdsa.py")).read())
+    return _REF
+
+
+INTS = lambda t: t in ("r", "s", "val", "order", "n", "k", "k1", "u1", "u2", "s_inverse", "w", "recid", "bln", "order_size", "hash_size", "shift", "secret_exponent", "generator_order", "x", "y", "value", "inv_r", "s_over_r", "alpha", "y0", "p", "v_int") \
+    or t.startswith(("self._order", "self.inverse(", "len(", "sig[", "signature[", "int.from_bytes(", "self._p", "self._a", "self._b", "pow(", "self.modular_sqrt(", "hash_f().digest_size", "generator_order.bit_length()", "n.bit_length()", "from_bytes_32("))
+
+
+def _refcheck(ctx, rel, dotted, refname, key, ints=None):
+    fi = ctx.p.functions.get(ctx.p.module(rel).name + "." + dotted) or ctx.func(rel, dotted)
+    return sym.against_reference(ctx, fi, _ref(), refname, key, ints or INTS)
+
+
 # ------------------------------------------------------------------ C01.1
 def c01_1(ctx):
     f = ctx.func(GEN, "Generator.verify")
-    defs = df.single_defs(f.node)
     params = f.params()
     if len(params) < 4:
         raise AnalysisError("Generator.verify: unexpected signature %s" % params)
     sigp, valp = params[3], params[2]
-    # r, s = sig
-    unp = [d for name in ("r", "s") for d in df.assignments(f.node).get(name, [])]
-    comps = {}
-    for name, ds in df.assignments(f.node).items():
-        for v, st in ds:
-            if isinstance(v, tuple) and v[0] == "unpack" and norm(v[1]) == sigp:
-                comps[v[2]] = name
-    if set(comps) != {0, 1}:
-        raise AnalysisError("Generator.verify: cannot find the (r, s) components of %s" % sigp)
-    rname, sname = comps[0], comps[1]
-    const = ru.const_resolver(ctx, f, ORDER_TEXTS)
     accept = lambda e: e.kind == "return" and not _is_const_false(e.value)
-    for subj, want, key in ((rname, iv(1, ("s", -1)), "r-range"), (sname, iv(1, ("s", -1)), "s-range"), (valp, iv(0, 0).complement(), "val-nonzero")):
-        w = GuardWalker(SymbolicAtomizer(ru.subject({subj}), const))
-        exits = w.run(f.node.body)
-        may, must = reach_sets(exits, accept, U, E)
+    for subj, want, key in (("%s[0]" % sigp, iv(1, ("s", -1)), "r-range"), ("%s[1]" % sigp, iv(1, ("s", -1)), "s-range"), (valp, iv(0, 0).complement(), "val-nonzero")):
+        w = sym.int_walk(ctx, f, {subj}, ORDER_TEXTS)
+        fr = sym.exits_formula(w, accept)
+        may = sym.may_set(fr, U, E) if fr is not False else E
         ctx.check(may == want, key, ctx.where(f),
-                  "Generator.verify: values of %s for which the equation is evaluated are %s; the property requires exactly %s "
-                  "(order = self._order, the group order)" % (subj, may.fmt("order"), want.fmt("order")),
+                  "Generator.verify: values of %s for which the equation is evaluated are %s; the property requires exactly %s (order = self._order, the group order)" % (subj, may.fmt("order"), want.fmt("order")),
                   sample={"function": f.qualname, "subject": subj, "may_accept": may.fmt("order"), "expected": want.fmt("order")})
-    # the rejecting exits return the constant False (never raise, never None)
-    w = GuardWalker(ru.opaque)
-    exits = w.run(f.node.body)
-    for e in exits:
+    w = sym.walk(ctx, f)
+    for e in w.exits:
         ctx.check(e.kind == "return" and e.value is not None, "verify-returns-bool:%s" % e.kind, ctx.where(f, e.node),
                   "Generator.verify has an exit that is not `return <bool>` (%s)" % e.kind, what="exit:%s:%s" % (e.kind, norm(e.value) if e.value is not None else ""))
 
 
 # ------------------------------------------------------------------ C01.2
 def c01_2(ctx):
-    f = ctx.func(GEN, "Generator.verify")
-    defs = df.single_defs(f.node)
-    rets = [r for r in df.returns_of(f.node) if r.value is not None and not _is_const_false(r.value)]
-    if len(rets) != 1:
-        raise AnalysisError("Generator.verify: expected one accepting return, found %d" % len(rets))
-    e = df.expand(rets[0].value, defs)
-    if not (isinstance(e, ast.Compare) and len(e.ops) == 1 and isinstance(e.ops[0], ast.Eq)):
-        raise AnalysisError("Generator.verify: accepting return is not an equality: %s" % norm(e))
-    a, b = e.left, e.comparators[0]
-    if norm(b) != "r" and norm(a) == "r":
-        a, b = b, a
-    ok_r = norm(b) == "r"
-    ok_mod = isinstance(a, ast.BinOp) and isinstance(a.op, ast.Mod) and norm(a.right) in ORDER_TEXTS
-    x = a.left if ok_mod else None
-    ok_x = isinstance(x, ast.Subscript) and df.const_int(x.slice) == 0
-    P = x.value if ok_x else None
-    shape = ok_r and ok_mod and ok_x and isinstance(P, ast.BinOp) and isinstance(P.op, ast.Add)
-    if not shape:
-        ctx.bad("equation-shape", ctx.where(f, rets[0]),
-                "Generator.verify: accepted iff `%s`; expected (u1*G + u2*Q)[0] %% order == r" % norm(e))
-        return
-    inv = "self.inverse(s)"
-    pk = f.params()[1]
-    want_g = sorted(["self", f.params()[2], inv])
-    want_q = sorted(["self.Point(*%s)" % pk, "r", inv])
-    got = [sorted(norm(t) for t in mul_factors(side)) for side in (P.left, P.right)]
-    ok = sorted(got) == sorted([want_g, want_q])
-    ctx.check(ok, "equation-terms", ctx.where(f, rets[0]),
-              "Generator.verify: the point compared with r is %s; the property requires (val/s)*G + (r/s)*Q with 1/s = self.inverse(s)" % norm(P),
-              sample={"accept_iff": norm(e)})
-    # inverse is the inverse modulo the order
-    inv_f = ctx.func(GEN, "Generator.inverse")
-    r = df.returns_of(inv_f.node)
-    ok = len(r) == 1 and isinstance(r[0].value, ast.Call) and df.last_attr(r[0].value) == "inverse_mod" and len(r[0].value.args) == 2 \
-        and norm(r[0].value.args[0]) == inv_f.params()[1] and norm(r[0].value.args[1]) in ORDER_TEXTS
-    ctx.check(ok, "inverse-mod-order", ctx.where(inv_f), "Generator.inverse is not inverse_mod(a, self._order)")
+    _refcheck(ctx, GEN, "Generator.verify", "gn_verify", "verification-equation")
+    _refcheck(ctx, GEN, "Generator.inverse", "gn_inverse", "inverse-mod-order")
 
 
 # ------------------------------------------------------------------ C01.3
 def c01_3(ctx):
-    for fname, var_from in (("Generator.verify", None), ("Generator.sign_with_recid", None)):
+    # the point compared with r is tested for infinity before a coordinate is read
+    for fname in ("Generator.verify",):
         f = ctx.func(GEN, fname)
-        # point variables: locals assigned from an expression that multiplies/adds points (contains `* self` or `self *`)
-        pts = []
-        for name, ds in df.assignments(f.node).items():
-            for v, st in ds:
-                if isinstance(v, ast.AST) and any(isinstance(n, ast.BinOp) and isinstance(n.op, (ast.Mult, ast.Add)) and
-                                                  ("self" in (norm(n.left), norm(n.right))) for n in ast.walk(v)):
-                    pts.append(name)
-        pts = sorted(set(pts))
-        if not pts:
-            raise AnalysisError("%s: no point-valued local found" % fname)
-        for var in pts:
-            uses = coordinate_uses(f.node, var)
-            if not uses:
+        w = sym.walk(ctx, f, int_names=INTS)
+        for e in w.exits:
+            if e.kind != "return" or e.value is None or _is_const_false(e.value):
                 continue
-            w = GuardWalker(inf_atomizer(var))
-            w.run(f.node.body)
-            reach = {id(st): r for st, r in w.visits}
-            for e in w.exits:
-                if e.node is not None:
-                    reach[id(e.node)] = e.cond
-            for st in uses:
-                r = reach.get(id(st))
-                if r is None:
-                    raise AnalysisError("%s: no reach formula for L%d" % (fname, st.lineno))
-                guarded = not can_be(r, "INF:" + var)
-                if not guarded and fname.endswith("sign_with_recid"):
-                    guarded = _nonce_stays_in_range(ctx, f)
-                ctx.check(guarded, "coordinate-before-infinity-test:%s:%s" % (f.name, var), ctx.where(f, st),
-                          "%s: coordinate of %s is used in `%s` on a path where %s may be the point at infinity (TypeError instead of a verdict)"
-                          % (fname, var, norm(st)[:80], var), what="%s:%s:L%s" % (f.name, var, norm(st)[:40]),
-                          sample={"function": f.qualname, "point": var, "use": norm(st)[:100], "reach": repr(r)[:200]})
+            pts = [n for n in ast.walk(e.value) if isinstance(n, ast.Subscript) and isinstance(n.value, ast.BinOp) and "self" in norm(n.value)]
+            if not pts:
+                raise Undecided("%s: the accepting return does not read a coordinate of the combined point" % fname)
+            P = norm(pts[0].value)
+            ops = gi.f_opaques(e.cond) if e.cond not in (True, False) else []
+            inf = [o for o in ops if P in o and ("infinity" in o or "is None" in o)]
+            ctx.check(bool(inf) and all(sym.entails(e.cond, ("not", ("op", o))) for o in inf if "==" in o or " is " in o), "coordinate-before-infinity-test:%s" % f.name, ctx.where(f, e.node),
+                      "%s: a coordinate of the combined point is used on a path where it may be the point at infinity (TypeError instead of a verdict)" % fname,
+                      sample={"function": f.qualname, "point": P[:80], "guards": inf})
+    f = ctx.func(GEN, "Generator.sign_with_recid")
+    ctx.check(_nonce_stays_in_range(ctx, f), "nonce-stays-in-range", ctx.where(f), "sign_with_recid: a retried nonce can leave [1, n-1] (k*G becomes infinity, coordinates are None)")
 
 
 def _nonce_stays_in_range(ctx, f):
-    """k comes from the nonce generator (documented range 1..n-1); every later change of k must be followed by a
-    restoring guard comparing k with the order."""
-    augs = [n for n in body_nodes(f.node) if isinstance(n, ast.AugAssign) and norm(n.target) == "k"]
-    if not augs:
-        return True
-    defs = df.single_defs(f.node)
-    from sa.cfg import stmt_paths
-    paths = stmt_paths(f.node)
-    for a in augs:
-        p = paths[id(a)]
-        owner, branch, idx = p[-1]
-        # statements following in the same block
-        block = None
-        for n in ast.walk(f.node):
-            if id(n) == owner:
-                block = getattr(n, branch, None) if not branch.startswith("handler") else None
-        if block is None:
-            return False
-        ok = False
-        for st in block[idx + 1:]:
-            if isinstance(st, ast.If) and "k" in df.names_in(st.test):
-                t = df.expand(st.test, defs)
-                if any(norm(c) in ORDER_TEXTS or norm(c) == "n" for c in ast.walk(t)):
-                    ok = any(isinstance(b, ast.Assign) and norm(b.targets[0]) == "k" for b in st.body)
-            if isinstance(st, ast.AugAssign) and norm(st.target) == "k" and isinstance(st.op, ast.Mod):
-                ok = False  # k %= n can give 0
-        if not ok:
-            return False
-    return True
+    """the retry transformer of the nonce keeps it inside [1, n-1]: k := 1 when k + 1 >= n, else k + 1"""
+    w = sym.walk(ctx, f, int_names=INTS)
+    ok_any = False
+    for lid, states in w.loop_out.items():
+        for st in states:
+            for name, v in st.env.items():
+                if not isinstance(name, str) or name.startswith("\0"):
+                    continue
+                t = norm(v)
+                if t in ("%s + 1" % name,):
+                    # incremented: the path condition must say the result is below the order
+                    ops = gi.f_opaques(st.reach) if st.reach not in (True, False) else []
+                    lim = [o for o in ops if o.startswith("%s - self._order < " % name) or o.startswith("%s < " % name)]
+                    if not lim:
+                        return False
+                    ok_any = True
+                elif isinstance(v, ast.BinOp) and isinstance(v.op, ast.Mod) and any(isinstance(x, ast.Name) and x.id == name for x in ast.walk(v)):
+                    return False       # k % n can be 0
+    return ok_any
 
 
 # ------------------------------------------------------------------ C01.4
 def c01_4(ctx):
     f = ctx.func(GEN, "Generator.sign_with_recid")
     params = f.params()
-    defs = df.single_defs(f.node)
-    # default binding
-    ifs = [n for n in body_nodes(f.node) if isinstance(n, ast.If) and norm(n.test) == "gen_k is None"]
-    bound = None
-    for i in ifs:
-        for st in i.body:
-            if isinstance(st, ast.Assign) and norm(st.targets[0]) == "gen_k":
-                bound = st.value
-    tgt = ctx.p.resolve_expr_static(f.module, bound) if bound is not None else None
     rfc = ctx.func(RFC, "deterministic_generate_k")
-    ctx.check(tgt is rfc, "default-nonce-generator", ctx.where(f),
-              "sign_with_recid: when gen_k is None it is not bound to rfc6979.deterministic_generate_k (bound to %s)" % (norm(bound) if bound is not None else None))
-    calls = [c for c in df.calls_in(f.node) if norm(c.func) == "gen_k"]
-    if len(calls) != 1:
-        raise AnalysisError("sign_with_recid: expected one call of gen_k, found %d" % len(calls))
-    c = calls[0]
-    args = [norm(df.expand(a, defs)) for a in c.args]
-    kw = {k.arg: norm(df.expand(k.value, defs)) for k in c.keywords}
+    w = sym.walk(ctx, f, int_names=INTS)
+    gp = params[3]
+    calls = [e for e in w.effects if e.kind == "call" and norm(e.call.func) in (gp, "deterministic_generate_k")]
+    if not calls:
+        raise Undecided("sign_with_recid: the nonce generator call is not recognisable")
+    none_atom = ("op", "%s is None" % gp)
+    dflt = [e for e in calls if norm(e.call.func) == "deterministic_generate_k"]
+    user = [e for e in calls if norm(e.call.func) == gp]
+    ok = bool(dflt) and all(sym.entails(e.reach, none_atom) for e in dflt) and all(sym.entails(e.reach, gi.f_not(none_atom)) for e in user)
+    tgt = ctx.p.resolve_expr_static(f.module, ast.Name("deterministic_generate_k", ast.Load()))
+    ctx.check(ok and tgt is rfc, "default-nonce-generator", ctx.where(f), "sign_with_recid: when gen_k is None the nonce does not come from rfc6979.deterministic_generate_k")
     rp = rfc.params()
-    bind = dict(zip(rp, args))
-    bind.update(kw)
-    ok = bind.get(rp[0]) in ORDER_TEXTS and bind.get(rp[1]) == params[1] and bind.get(rp[2]) == params[2]
-    ctx.check(ok, "nonce-arguments", ctx.where(f, c),
-              "sign_with_recid: nonce generator called with %s; the property requires (order, secret_exponent, val) so that the nonce depends on key and hash" % bind,
-              sample={"call": norm(c), "binding": bind})
-    ctx.check(rp[:3] == ["generator_order", "secret_exponent", "val"], "rfc6979-signature", ctx.where(rfc),
-              "deterministic_generate_k parameters are %s" % rp[:3])
-    # Generator.sign forwards all three
-    g = ctx.func(GEN, "Generator.sign")
-    cs = [c for c in df.calls_in(g.node) if df.last_attr(c) == "sign_with_recid"]
-    ok = len(cs) == 1 and [norm(a) for a in cs[0].args] == g.params()[1:4]
-    ctx.check(ok, "sign-forwards", ctx.where(g), "Generator.sign does not forward (secret_exponent, val, gen_k) to sign_with_recid")
+    for e in calls:
+        args = [norm(a) for a in e.call.args]
+        bind = dict(zip(rp, args))
+        bind.update({k.arg: norm(k.value) for k in e.call.keywords})
+        ok = bind.get(rp[0]) in ORDER_TEXTS and bind.get(rp[1]) == params[1] and bind.get(rp[2]) == params[2]
+        ctx.check(ok, "nonce-arguments", ctx.where(f, e.node),
+                  "sign_with_recid: nonce generator called with %s; the property requires (order, secret_exponent, val) so that the nonce depends on key and hash" % bind, sample={"call": norm(e.call)[:100], "binding": bind})
+    ctx.check(rp[:3] == ["generator_order", "secret_exponent", "val"], "rfc6979-signature", ctx.where(rfc), "deterministic_generate_k parameters are %s" % rp[:3])
+    _refcheck(ctx, GEN, "Generator.sign", "gn_sign", "sign-forwards")
 
 
 # ------------------------------------------------------------------ C01.5
-def _hmac_calls(node_list):
-    out = []
-    for st in node_list:
-        if isinstance(st, ast.Assign) and isinstance(st.value, ast.Call):
-            c = st.value
-            # hmac.new(key, msg, digestmod).digest()
-            if isinstance(c.func, ast.Attribute) and c.func.attr == "digest" and isinstance(c.func.value, ast.Call) \
-                    and norm(c.func.value.func) in ("hmac.new", "hmac.HMAC"):
-                h = c.func.value
-                a = {"key": None, "msg": None, "digestmod": None}
-                for name, v in zip(("key", "msg", "digestmod"), h.args):
-                    a[name] = v
-                for k in h.keywords:
-                    a[k.arg] = k.value
-                out.append((norm(st.targets[0]), a, st))
-    return out
-
-
 def c01_5(ctx):
     f = ctx.func(RFC, "deterministic_generate_k")
-    n_, d_, z_ = f.params()[:3]
-    defs = df.single_defs(f.node)
-    # default hash
     a = f.node.args
     dflt = dict(zip([x.arg for x in a.args][len(a.args) - len(a.defaults):], a.defaults))
     ctx.check("hash_f" in dflt and norm(dflt["hash_f"]) == "hashlib.sha256", "default-hash", ctx.where(f),
               "deterministic_generate_k: default hash is %s, RFC 6979 for Bitcoin uses HMAC-SHA256" % (norm(dflt["hash_f"]) if "hash_f" in dflt else None))
-
-    def ex(e):
-        return norm(df.expand(e, defs))
-    order_size = ex(ast.parse("order_size", mode="eval").body)
-    ctx.check(order_size in ("(%s.bit_length() + 7) // 8" % n_, "(n.bit_length() + 7) // 8", "(generator_order.bit_length() + 7) // 8"), "order-size", ctx.where(f),
-              "deterministic_generate_k: order_size expands to `%s`, expected ceil(bitlen(n)/8)" % order_size)
-    priv = defs.get("priv")
-    ctx.check(priv is not None and isinstance(priv, ast.Call) and df.last_attr(priv) == "to_bytes" and norm(priv.func.value) == d_
-              and norm(priv.args[0]) == "order_size" and norm(priv.args[1]) == "'big'", "int2octets-key", ctx.where(f),
-              "deterministic_generate_k: priv is `%s`, expected secret_exponent.to_bytes(order_size, 'big')" % (norm(priv) if priv is not None else None))
-    h1 = defs.get("h1")
-    ctx.check(h1 is not None and isinstance(h1, ast.Call) and df.last_attr(h1) == "to_bytes" and norm(h1.func.value) == z_
-              and norm(h1.args[0]) == "order_size" and norm(h1.args[1]) == "'big'", "bits2octets-hash", ctx.where(f),
-              "deterministic_generate_k: h1 is `%s`, expected val.to_bytes(order_size, 'big') after reduction" % (norm(h1) if h1 is not None else None))
-    # reductions of val
-    w0 = GuardWalker(ru.opaque)
-    w0.run(f.node.body)
-    red = {}
-    for st, reach in w0.visits:
-        if isinstance(st, ast.AugAssign) and norm(st.target) == z_:
-            red[st.op.__class__.__name__] = (norm(st.value), reach)
-    ok = "RShift" in red and red["RShift"][0] == "shift" and gi.f_equiv(red["RShift"][1], ("op", "shift > 0")) and "Sub" in red and \
-        red["Sub"][0] in (n_, "n") and gi.f_equiv(red["Sub"][1], ("op", "%s >= %s" % (z_, red["Sub"][0])))
-    ctx.check(ok, "bits2int-reduction", ctx.where(f), "deterministic_generate_k: reductions of val are %s; RFC 6979 bits2octets needs `val >>= shift` exactly when shift > 0 and `val -= n` exactly when val >= n" % red)
-    ctx.check(ex(ast.parse("shift", mode="eval").body) in ("8 * hash_f().digest_size - n.bit_length()", "8 * hash_f().digest_size - %s.bit_length()" % n_), "shift", ctx.where(f),
-              "deterministic_generate_k: shift expands to %s" % ex(ast.parse("shift", mode="eval").body))
-    # straight-line prefix: initial v, k and the four HMAC steps
-    top = f.node.body
-    inits = {}
-    for st in top:
-        if isinstance(st, ast.Assign) and norm(st.targets[0]) in ("v", "k") and not isinstance(st.value, ast.Call):
-            inits.setdefault(norm(st.targets[0]), norm(st.value))
-    ctx.check(inits.get("v") == "b'\\x01' * hash_size" and inits.get("k") == "b'\\x00' * hash_size", "initial-state", ctx.where(f),
-              "deterministic_generate_k: initial V/K are %s; RFC 6979 3.2.b/c: V = 0x01..., K = 0x00..." % inits)
-    hm = _hmac_calls(top)
-
-    keep = {"v", "k", "priv", "h1"}
-    alias = {norm(defs[x]): x for x in ("priv", "h1") if x in defs}
-
-    def msg_parts(a):
-        if a["msg"] is None:
-            return []
-        e = df.expand(a["msg"], {k: v for k, v in defs.items() if k not in keep})
-        return [alias.get(norm(p), norm(p)) for p in df.flatten_add(e)]
-    seq = [(t, norm(a["key"]) if a["key"] is not None else None, msg_parts(a), norm(a["digestmod"]) if a["digestmod"] is not None else None) for t, a, st in hm]
-    P, H = "priv", "h1"
-    want = [("k", "k", ["v", "b'\\x00'", P, H], "hash_f"), ("v", "k", ["v"], "hash_f"),
-            ("k", "k", ["v", "b'\\x01'", P, H], "hash_f"), ("v", "k", ["v"], "hash_f")]
-    ctx.check(seq == want, "hmac-steps-d-g", ctx.where(f),
-              "deterministic_generate_k: the K/V initialisation is %s; RFC 6979 3.2.d-g requires K=HMAC(K,V||00||x||h1), V=HMAC(K,V), K=HMAC(K,V||01||x||h1), V=HMAC(K,V)" % seq,
-              sample={"steps": seq})
-    # candidate loop
-    loops = [n for n in top if isinstance(n, ast.While)]
-    if len(loops) != 1:
-        raise AnalysisError("deterministic_generate_k: expected one top-level candidate loop")
-    lp = loops[0]
-    inner = [n for n in lp.body if isinstance(n, ast.While)]
-    ok_inner = len(inner) == 1 and norm(inner[0].test) == "len(t) < order_size" and \
-        [(t, k, m) for t, k, m, d in [(t, norm(a["key"]), msg_parts(a), 0) for t, a, st in _hmac_calls(inner[0].body)]] == [("v", "k", ["v"])] and \
-        any(isinstance(s, ast.Expr) and norm(s.value) == "t.extend(v)" for s in inner[0].body)
-    ctx.check(ok_inner, "candidate-generation", ctx.where(f, lp), "deterministic_generate_k: T is not built by V = HMAC(K, V); T = T || V until len(T) >= order_size")
-    ldefs = df.single_defs(f.node)
-    k1 = [st for st in lp.body if isinstance(st, ast.Assign) and norm(st.targets[0]) == "k1"]
-    ok_k1 = len(k1) == 1 and norm(k1[0].value) in ("int.from_bytes(bytes(t), 'big')", "int.from_bytes(t, 'big')")
-    sh = [st for st in lp.body if isinstance(st, ast.AugAssign) and norm(st.target) == "k1"]
-    ok_sh = len(sh) == 1 and isinstance(sh[0].op, ast.RShift) and norm(sh[0].value) in ("len(t) * 8 - bln", "8 * len(t) - bln")
-    ctx.check(ok_k1 and ok_sh, "bits2int-candidate", ctx.where(f, lp), "deterministic_generate_k: candidate is not bits2int(T) (big-endian, shifted right by 8*len(T) - bitlen(n))")
-    const = ru.const_resolver(ctx, f, {n_, "n"})
-    w = GuardWalker(SymbolicAtomizer(ru.subject({"k1"}), const))
-    exits = w.run(lp.body)
-    may, must = reach_sets(exits, lambda e: e.kind == "return", U, E)
-    ctx.check(may == iv(1, ("s", -1)) and must == may, "candidate-range", ctx.where(f, lp),
-              "deterministic_generate_k: candidates returned are %s, RFC 6979 3.2.h.3 requires exactly [1, n-1]" % may.fmt("n"),
-              sample={"subject": "k1", "returned": may.fmt("n")})
-    rets = [e for e in exits if e.kind == "return"]
-    ctx.check(all(norm(e.value) == "k1" for e in rets), "returns-candidate", ctx.where(f, lp), "deterministic_generate_k does not return the candidate k1")
-    tail = [(t, norm(a["key"]), msg_parts(a)) for t, a, st in _hmac_calls(lp.body)]
-    ctx.check(tail == [("k", "k", ["v", "b'\\x00'"]), ("v", "k", ["v"])], "rekey-on-reject", ctx.where(f, lp),
-              "deterministic_generate_k: after a rejected candidate the update is %s; RFC 6979 requires K = HMAC(K, V || 00), V = HMAC(K, V)" % tail)
+    _refcheck(ctx, RFC, "deterministic_generate_k", "rfc_generate_k", "rfc6979-steps")
+    # bits2octets: the (shifted) hash is reduced by n exactly when it is >= n, whatever the shift was
+    n_, d_, z_ = f.params()[:3]
+    wz = sym.walk(ctx, f, int_names=INTS)
+    tb = [e for e in wz.effects if e.kind == "call" and isinstance(e.call.func, ast.Attribute) and e.call.func.attr == "to_bytes"
+          and any(isinstance(x, ast.Name) and x.id == z_ for x in ast.walk(e.call.func.value))]
+    if not tb:
+        raise Undecided("deterministic_generate_k: no <hash>.to_bytes(...) call found")
+    for e in tb:
+        X = e.call.func.value
+        l = wz.canon._lin(X, True)
+        coef = l[0].get(n_, [0])[0] if l is not None else 0
+        reduced = coef == -1
+        V = wz.canon.expr(ast.BinOp(X, ast.Add(), ast.Name(n_, ast.Load()))) if reduced else X
+        A = wz.atomize(ast.Compare(V, [ast.Lt()], [ast.Name(n_, ast.Load())]), True)
+        ok = coef in (0, -1) and (sym.entails(e.reach, gi.f_not(A)) if reduced else sym.entails(e.reach, A))
+        ctx.check(ok, "bits2octets-reduction", ctx.where(f, e.node),
+                  "deterministic_generate_k hashes `%s` into the nonce on a path where it is %s: RFC 6979 bits2octets reduces the (shifted) hash modulo n exactly when it is >= n, independently of the shift"
+                  % (norm(X)[:60], "not known to be >= n" if reduced else "not known to be < n"), what="bits2octets:%s" % ("reduced" if reduced else "unreduced"), sample={"h1": norm(X)[:80], "reduced": reduced})
+    # candidates returned are exactly [1, n-1]
+    w0 = sym.walk(ctx, f, int_names=INTS)
+    rets = [e for e in w0.exits if e.kind == "return" and e.value is not None]
+    if not rets:
+        raise Undecided("deterministic_generate_k returns nothing")
+    for e0 in rets:
+        subj = norm(e0.value)
+        w = sym.int_walk(ctx, f, {subj}, {n_})
+        fr = sym.exits_formula(w, lambda e: e.kind == "return" and e.node is e0.node)
+        may = sym.may_set(fr, U, E) if fr is not False else E
+        ctx.check(may == iv(1, ("s", -1)), "candidate-range", ctx.where(f, e0.node), "deterministic_generate_k: candidates returned are %s, RFC 6979 3.2.h.3 requires exactly [1, n-1]" % may.fmt("n"), sample={"returned": may.fmt("n")})
 
 
 # ------------------------------------------------------------------ C01.6
 def c01_6(ctx):
     f = ctx.func(GEN, "Generator.sign_with_recid")
     params = f.params()
-    defs = df.single_defs(f.node)
-    const = ru.const_resolver(ctx, f, ORDER_TEXTS)
-    w = GuardWalker(SymbolicAtomizer(ru.subject({params[2]}), const))
-    exits = w.run(f.node.body)
-    may, must = reach_sets(exits, lambda e: e.kind == "raise" and gi.involves_subject(e.cond), U, E)
-    ctx.check(may == iv(0, 0), "zero-hash-refused", ctx.where(f), "sign_with_recid: hash values refused are %s, expected exactly {0}" % may.fmt())
-    loops = [n for n in f.node.body if isinstance(n, ast.While)]
-    if len(loops) != 1:
-        raise AnalysisError("sign_with_recid: expected one retry loop")
-    lp = loops[0]
-    for subj in ("r", "s"):
-        w = GuardWalker(SymbolicAtomizer(ru.subject({subj}), const))
-        ex = w.run(lp.body)
-        may, must = reach_sets(ex, lambda e: e.kind == "return", U, E)
-        ctx.check(may == iv(0, 0).complement(), "retry-%s" % subj, ctx.where(f, lp),
-                  "sign_with_recid: signatures are returned for %s in %s; must be exactly the non-zero values" % (subj, may.fmt()),
-                  sample={"subject": subj, "returned_when": may.fmt()})
-    ldefs = {}
-    for st in lp.body:
-        if isinstance(st, ast.Assign) and isinstance(st.targets[0], ast.Name):
-            ldefs[st.targets[0].id] = st.value
-    n_alias = {k for k, v in defs.items() if norm(v) in ORDER_TEXTS} | ORDER_TEXTS
-
-    def is_n(e):
-        return norm(e) in n_alias
-    r_ok = "r" in ldefs and isinstance(ldefs["r"], ast.BinOp) and isinstance(ldefs["r"].op, ast.Mod) and is_n(ldefs["r"].right) \
-        and isinstance(ldefs["r"].left, ast.Subscript) and df.const_int(ldefs["r"].left.slice) == 0
-    ctx.check(r_ok, "r-definition", ctx.where(f, lp), "sign_with_recid: r is `%s`, expected (k*G)[0] %% order" % (norm(ldefs["r"]) if "r" in ldefs else None))
-    pt = norm(ldefs["r"].left.value) if r_ok else None
-    p_ok = pt in ldefs and sorted(norm(x) for x in mul_factors(ldefs[pt])) == ["k", "self"]
-    ctx.check(p_ok, "nonce-point", ctx.where(f, lp), "sign_with_recid: the nonce point is `%s`, expected k * self" % (norm(ldefs[pt]) if pt in ldefs else None))
-    s = ldefs.get("s")
-    ok = False
-    if isinstance(s, ast.BinOp) and isinstance(s.op, ast.Mod) and is_n(s.right):
-        fac = mul_factors(s.left)
-        texts = sorted(norm(x) for x in fac)
-        if len(fac) == 2 and "self.inverse(k)" in texts:
-            other = [x for x in fac if norm(x) != "self.inverse(k)"][0]
-            terms = df.flatten_add(other)
-            tt = []
-            for t in terms:
-                if isinstance(t, ast.BinOp) and isinstance(t.op, ast.Mod) and is_n(t.right):
-                    t = t.left
-                tt.append(sorted(norm(x) for x in mul_factors(t)))
-            ok = sorted(tt) == sorted([[params[2]], sorted([params[1], "r"])])
-    ctx.check(ok, "s-definition", ctx.where(f, lp), "sign_with_recid: s is `%s`, expected k^-1 * (val + secret_exponent * r) mod order with k^-1 = self.inverse(k)" % (norm(s) if s is not None else None),
-              sample={"s": norm(s) if s is not None else None})
-    # recovery id
-    odefs = {k: v for k, v in defs.items() if norm(v) in ORDER_TEXTS}
-    rec = [st for st in body_nodes(lp) if isinstance(st, ast.Assign) and norm(st.targets[0]) == "recid"]
-    ok = len(rec) == 1 and norm(rec[0].value) == "%s[1] & 1" % pt
-    bump = [n for n in body_nodes(lp) if isinstance(n, ast.If) and any(isinstance(b, ast.AugAssign) and norm(b.target) == "recid" for b in n.body)]
-    ok2 = len(bump) == 1 and norm(df.expand(bump[0].test, odefs)) in ("%s[0] > self._order" % pt, "%s[0] >= self._order" % pt) and \
-        any(isinstance(b, ast.AugAssign) and isinstance(b.op, ast.Add) and df.const_int(b.value) == 2 for b in bump[0].body)
-    ctx.check(ok and ok2, "recovery-id", ctx.where(f, lp), "sign_with_recid: recovery id is not (y parity) + 2*(x >= order): %s / %s" % ([norm(x.value) for x in rec], [norm(df.expand(b.test, odefs)) for b in bump]))
+    w = sym.int_walk(ctx, f, {params[2]}, ORDER_TEXTS)
+    fr = sym.exits_formula(w, lambda e: e.kind == "raise")
+    s, n = sym.decisive_set(fr, U, E) if fr is not False else (E, 0)
+    ctx.check(s == iv(0, 0), "zero-hash-refused", ctx.where(f), "sign_with_recid: hash values refused are %s, expected exactly {0}" % s.fmt())
+    _refcheck(ctx, GEN, "Generator.sign_with_recid", "gn_sign_with_recid", "signing-equation")
 
 
 # ------------------------------------------------------------------ C01.7
 def c01_7(ctx):
     f = ctx.func(KEY, "Key.verify")
-    calls = [c for c in df.calls_in(f.node) if df.last_attr(c) == "sigdecode_der"]
-    if len(calls) != 1:
-        raise AnalysisError("Key.verify: expected one sigdecode_der call")
-    kw = {k.arg: k.value for k in calls[0].keywords}
+    w = sym.walk(ctx, f)
+    calls = sym.calls_matching(w, lambda t: t == "sigdecode_der")
+    if not calls:
+        raise Undecided("Key.verify does not call sigdecode_der")
     der = ctx.func("pycoin/satoshi/der.py", "sigdecode_der")
-    pos = dict(zip(der.params(), calls[0].args))
-    flag = kw.get("use_broken_open_ssl_mechanism", pos.get("use_broken_open_ssl_mechanism"))
-    ctx.check(isinstance(flag, ast.Constant) and flag.value is False, "strict-der", ctx.where(f, calls[0]),
-              "Key.verify decodes the signature with use_broken_open_ssl_mechanism=%s; the application-level verifier must be strict" % (norm(flag) if flag is not None else "<default True>"))
-    # the call sits in a try whose handler covers UnexpectedDER and ValueError and returns False
-    tries = [n for n in body_nodes(f.node) if isinstance(n, ast.Try) and any(c is calls[0] for s in n.body for c in ast.walk(s))]
-    ok = False
-    for t in tries:
-        for h in t.handlers:
-            names = {df.dotted(x) for x in (h.type.elts if isinstance(h.type, ast.Tuple) else [h.type])} if h.type is not None else {"BaseException"}
-            names = {n.split(".")[-1] for n in names if n}
-            if ({"UnexpectedDER", "ValueError"} <= names or "Exception" in names or "BaseException" in names) and \
-                    any(isinstance(s, ast.Return) and _is_const_false(s.value) for s in h.body):
-                ok = True
-    ctx.check(ok, "der-errors-to-false", ctx.where(f), "Key.verify does not turn UnexpectedDER/ValueError from the decoder into False")
-    g = ctx.func(KEY, "Key.sign")
-    w = GuardWalker(ru.opaque)
-    ex = w.run(g.node.body)
-    rs = [e for e in ex if e.kind == "raise"]
-    ctx.check(any("is_private" in repr(e.cond) or "secret_exponent" in repr(e.cond) for e in rs), "sign-needs-private", ctx.where(g), "Key.sign does not refuse public-only keys")
-    enc = [c for c in df.calls_in(g.node) if df.last_attr(c) == "sigencode_der"]
-    defs = df.assignments(g.node)
-    ok = False
-    if len(enc) == 1 and len(enc[0].args) == 2:
-        a0, a1 = norm(enc[0].args[0]), norm(enc[0].args[1])
-        d0, d1 = defs.get(a0, []), defs.get(a1, [])
-        if len(d0) == 1 and len(d1) == 1 and isinstance(d0[0][0], tuple) and isinstance(d1[0][0], tuple):
-            ok = d0[0][0][0] == "unpack" and d0[0][0][2] == 0 and d1[0][0][2] == 1 and df.last_attr(d0[0][0][1]) == "sign" and d0[0][0][1] is d1[0][0][1]
-    ctx.check(ok, "der-encodes-r-s", ctx.where(g), "Key.sign does not encode (r, s) from generator.sign in that order")
+    for e in calls:
+        kw = {k.arg: k.value for k in e.raw.keywords}
+        pos = dict(zip(der.params(), e.raw.args))
+        flag = kw.get("use_broken_open_ssl_mechanism", pos.get("use_broken_open_ssl_mechanism"))
+        ctx.check(isinstance(flag, ast.Constant) and flag.value is False, "strict-der", ctx.where(f, e.node),
+                  "Key.verify decodes the signature with use_broken_open_ssl_mechanism=%s; the application-level verifier must be strict" % (norm(flag) if flag is not None else "<default True>"))
+        names = set()
+        tries = sym.enclosing_tries(f.node, e.node)
+        for t in tries:
+            names |= sym.handler_names(t)
+        ret_false = any(isinstance(x, ast.Return) and _is_const_false(x.value) for t in tries for h in t.handlers for x in h.body)
+        ctx.check(({"UnexpectedDER", "ValueError"} <= names or bool(names & {"Exception", "BaseException"})) and ret_false, "der-errors-to-false", ctx.where(f, e.node), "Key.verify does not turn UnexpectedDER/ValueError from the decoder into False")
+    _refcheck(ctx, KEY, "Key.verify", "key_verify", "verify-wrapper")
+    _refcheck(ctx, KEY, "Key.sign", "key_sign", "sign-wrapper")
 
 
 # ------------------------------------------------------------------ C01.8
@@ -495,58 +297,25 @@ def c01_8(ctx):
     ctx.check(norm(c.base_exprs[-1]) == "Generator", "generator-last-in-mro", "%s:%d" % (m.relpath, c.node.lineno), "GeneratorWithOptimizations does not end its bases with Generator")
     # native verify rejects what the pure verify rejects: parse failures return False
     f = ctx.func("pycoin/ecdsa/native/secp256k1.py", "Optimizations.verify")
-    w = GuardWalker(ru.opaque)
-    ex = w.run(f.node.body)
+    w = sym.SymWalker(f.node, sym.Canon(None, None))
+    ex = w.run()
     ctx.check(all(e.kind == "return" for e in ex), "native-verify-returns", ctx.where(f), "native verify has a non-return exit")
 
 
 # ------------------------------------------------------------------ C01.9 recovery
 def c01_9(ctx):
-    f = ctx.func(GEN, "Generator.possible_public_pairs_for_signature")
-    defs = df.single_defs(f.node)
-    params = f.params()
-    # Q = (s/r) * R - (z/r) * G  for R in points_for_x(r)
-    rets = [r for r in df.returns_of(f.node) if r.value is not None and not (isinstance(r.value, ast.List) and not r.value.elts)]
-    if len(rets) != 1 or not isinstance(rets[0].value, ast.ListComp):
-        raise AnalysisError("possible_public_pairs_for_signature: expected one list-comprehension return")
-    lc = rets[0].value
-    elt = df.expand(lc.elt, defs)
-    var = norm(lc.generators[0].target)
-    ok = False
-    if isinstance(elt, ast.BinOp) and isinstance(elt.op, ast.Add):
-        sides = []
-        for side in (elt.left, elt.right):
-            neg = False
-            if isinstance(side, ast.BinOp) and isinstance(side.op, ast.Mult) and isinstance(side.left, ast.UnaryOp) and isinstance(side.left.op, ast.USub):
-                neg = True
-                side = ast.BinOp(side.left.operand, ast.Mult(), side.right)
-            sides.append((neg, sorted(norm(x) for x in mul_factors(side))))
-        want = [(False, sorted(["s", "self.inverse(r)", var])), (True, sorted(["self.inverse(r)", params[1], "self"]))]
-        ok = sorted(sides) == sorted(want)
-    ctx.check(ok, "recovery-formula", ctx.where(f, rets[0]),
-              "possible_public_pairs_for_signature returns `%s` per candidate; expected (s/r)*R + (-(value/r))*G with 1/r = self.inverse(r)" % norm(elt),
-              sample={"element": norm(elt)})
-    pts = defs.get("points")
-    ctx.check(pts is not None and norm(pts) == "self.points_for_x(r)", "recovery-candidates", ctx.where(f), "recovery candidates are not self.points_for_x(r)")
-    # ValueError from points_for_x -> []
-    tries = [n for n in body_nodes(f.node) if isinstance(n, ast.Try)]
-    ok = any(any(isinstance(s, ast.Return) and isinstance(s.value, ast.List) and not s.value.elts for s in h.body) and h.type is not None and norm(h.type) in ("ValueError", "(ValueError,)")
-             for t in tries for h in t.handlers)
-    ctx.check(ok, "recovery-no-point", ctx.where(f), "possible_public_pairs_for_signature does not map `no point for x` to []")
-    # parity selection
-    ifs = [n for n in body_nodes(f.node) if isinstance(n, ast.If) and norm(n.test) == "y_parity & 1"]
-    ok = len(ifs) == 1 and any("[1:]" in norm(s) for s in ifs[0].body) and any("[:1]" in norm(s) for s in ifs[0].orelse)
-    ctx.check(ok, "recovery-parity", ctx.where(f), "y_parity selection does not keep the odd point for odd parity and the even point otherwise")
+    _refcheck(ctx, GEN, "Generator.possible_public_pairs_for_signature", "gn_possible_public_pairs", "recovery-formula")
+    _refcheck(ctx, GEN, "Generator.points_for_x", "gn_points_for_x", "recovery-candidates")
 
 
 OBLIGATIONS = [
-    Ob("C01.1", "verify: range guards as intervals, boolean exits only", c01_1, floor=5, engines="GI,DF", breaks_if="(r,n), (0,s), (n+r,s), val=0"),
-    Ob("C01.2", "verify: accepted iff ((val/s)G + (r/s)Q).x mod n == r", c01_2, floor=2, engines="DF", breaks_if="any signature / swapped u1,u2"),
-    Ob("C01.3", "infinity test dominates coordinate use in verify and sign_with_recid", c01_3, floor=2, engines="NUL,GI", breaks_if="Q = -(z/r)G; nonce retry reaching k = n"),
-    Ob("C01.4", "nonce generator bound to RFC 6979 with (order, key, hash)", c01_4, floor=4, engines="DF", breaks_if="nonce reuse across hashes or keys"),
-    Ob("C01.5", "deterministic_generate_k has the RFC 6979 section 3.2 shape", c01_5, floor=13, engines="DF,GI", breaks_if="every (d,z): signature differs from RFC 6979 / nonce ignores z"),
-    Ob("C01.6", "sign_with_recid: retry guard, r/s definitions modulo the order, recovery id", c01_6, floor=7, engines="GI,MK,DF", breaks_if="r == 0 or s == 0 returned; wrong modulus"),
-    Ob("C01.7", "Key.sign / Key.verify DER wrapper: strict decode, errors to False, (r,s) order", c01_7, floor=4, engines="DF,EX"),
+    Ob("C01.1", "verify: range guards as intervals, boolean exits only", c01_1, floor=5, engines="SYM,GI", breaks_if="(r,n), (0,s), (n+r,s), val=0"),
+    Ob("C01.2", "verify: accepted iff ((val/s)G + (r/s)Q).x mod n == r", c01_2, floor=2, engines="SYM", breaks_if="any signature / swapped u1,u2"),
+    Ob("C01.3", "infinity test dominates coordinate use in verify and sign_with_recid", c01_3, floor=2, engines="SYM", breaks_if="Q = -(z/r)G; nonce retry reaching k = n"),
+    Ob("C01.4", "nonce generator bound to RFC 6979 with (order, key, hash)", c01_4, floor=4, engines="SYM", breaks_if="nonce reuse across hashes or keys"),
+    Ob("C01.5", "deterministic_generate_k has the RFC 6979 section 3.2 shape", c01_5, floor=3, engines="SYM,GI", breaks_if="every (d,z): signature differs from RFC 6979 / nonce ignores z"),
+    Ob("C01.6", "sign_with_recid: retry guard, r/s definitions modulo the order, recovery id", c01_6, floor=2, engines="SYM,GI", breaks_if="r == 0 or s == 0 returned; wrong modulus"),
+    Ob("C01.7", "Key.sign / Key.verify DER wrapper: strict decode, errors to False, (r,s) order", c01_7, floor=4, engines="SYM"),
     Ob("C01.8", "native backends override only arithmetic / sign / verify", c01_8, floor=3, engines="PM,SIB"),
-    Ob("C01.9", "public-key recovery formula and candidate selection", c01_9, floor=4, engines="DF,LIN", breaks_if="recovered key does not verify"),
+    Ob("C01.9", "public-key recovery formula and candidate selection", c01_9, floor=2, engines="SYM", breaks_if="recovered key does not verify"),
 ]
